@@ -16,8 +16,10 @@ package redis
 
 import (
 	"encoding/json"
+	"errors"
 	"fmt"
 	"os"
+	"regexp"
 	"sort"
 	"strings"
 	"testing"
@@ -80,6 +82,16 @@ type vfcResult struct {
 func vfcErrClass(err error) string {
 	if err == nil {
 		return "ok"
+	}
+	// the class the SENDER sees (errors.Is on the sentinels, as output.go sendFunc does): the sentinel
+	// texts are "move" / "ask" / "cross slots", the upper-case words below are server reply texts
+	switch {
+	case errors.Is(err, common.ErrMove):
+		return "moved"
+	case errors.Is(err, common.ErrAsk):
+		return "ask"
+	case errors.Is(err, common.ErrCrossSlots):
+		return "crossslot"
 	}
 	s := err.Error()
 	switch {
@@ -534,6 +546,42 @@ func vfcMonitor(scn *vfcScn, res *vfcResult) []vfcViol {
 			has[sk] = true
 		}
 	}
+	// never skips (Props.C19.exec_downward_closed / exec_never_skip, on the double's own log): when a
+	// command of a key takes effect, every earlier command of that key has taken effect before - in
+	// this attempt or an earlier one. Sequential use only (pipelining across batches is C19-F1), and
+	// only when no node answered an error REPLY (see vfcErrorReply: commands pipelined behind such a
+	// command execute all the same); lost connections and unfollowed / failed redirects are in.
+	seqMode := scn.Mode == "sync" || scn.Mode == "syncnf" || scn.Mode == "stxn" ||
+		((scn.Mode == "pipe" || scn.Mode == "stxnpipe") && scn.Window <= 1)
+	if seqMode && !vfcErrorReply(res.Trace) {
+		perKey := map[int][]int{}
+		for _, b := range scn.Batches {
+			for _, cm := range b {
+				if _, put := idBatch[cm.ID]; !put {
+					continue // refused by Put: it never entered a node queue (the batch reports that error)
+				}
+				for _, k := range cm.Keys {
+					perKey[k] = append(perKey[k], cm.ID)
+				}
+			}
+		}
+		done := map[int]bool{}
+		for _, e := range res.Execs {
+			for _, ki := range keysOf[e.ID] {
+				for _, id := range perKey[ki] {
+					if id >= e.ID {
+						break
+					}
+					if !done[id] {
+						out = append(out, vfcViol{"per-key-skip", fmt.Sprintf("key %s: cmd %d took effect although the earlier cmd %d of that key had not (a later retry does not undo the gap)",
+							scn.Keys[ki], e.ID, id), ""})
+						break
+					}
+				}
+			}
+			done[e.ID] = true
+		}
+	}
 	if txn {
 		tot := map[int]int{}
 		for _, e := range res.Execs {
@@ -556,6 +604,222 @@ func vfcMonitor(scn *vfcScn, res *vfcResult) []vfcViol {
 		}
 	}
 	return out
+}
+
+// vfcErrorReply: did a node answer an ERROR REPLY (not a redirect) to a data command? Commands
+// pipelined behind such a command execute all the same, and the client goes on following later
+// redirects of the queue (cluster.go handleReply hands an error reply back as a reply): the gap this
+// leaves in a key is outside the property's fault alphabet (slot migrations, lost connections). An
+// injected connection fault (F:cb / F:ac: the node closes the connection before / after applying the
+// command) is not an error reply: the node stops there, and so must the client.
+func vfcErrorReply(trace []string) bool {
+	fault := ""
+	for _, ev := range trace {
+		p := strings.Split(ev, ":")
+		switch {
+		case p[0] == "F" && len(p) == 2:
+			fault = p[1]
+		case p[0] == "q" && len(p) == 5 && p[4] == "e":
+			if fault != "cb" && fault != "ac" {
+				return true
+			}
+			fault = ""
+		}
+	}
+	return false
+}
+
+// ---------------------------------------------------------------- operational model (Model/ClusterExec.lean)
+
+// vfcExecOp translates the observed run of a blocking plain scenario into the events of the
+// operational model: B (Put… + Exec of the queue), x / r (the queue's node executed / refused a
+// command), c (a followed redirect executed it elsewhere), A d (Exec returned nil), F (it returned an
+// error), R (end of the run). The Lean driver replays them through ClusterExec.step (membership:
+// node queues in order, a redirect followed only after the earlier replies of its queue, nil only
+// after every command executed, a retry only after a redirect error) and prints the segment events,
+// which are computed here from the attempts and the double's execution order.
+func vfcExecOp(tag string, scn *vfcScn, res *vfcResult) (string, []string, string) {
+	seq := scn.Mode == "sync" || scn.Mode == "syncnf" || scn.Mode == "stxn" ||
+		((scn.Mode == "pipe" || scn.Mode == "stxnpipe") && scn.Window <= 1) // batch2 used one batch at a time
+	if !seq {
+		return "", nil, "mode"
+	}
+	// the group of a command: its key. A schedule without an ASK phase (no setMigrating) answers per
+	// SLOT: then the group is the slot, and a command may have several keys of one slot
+	bySlot := true
+	for _, as := range scn.Between {
+		for _, a := range as {
+			if a.Ev.Kind == "g" {
+				bySlot = false
+			}
+		}
+	}
+	for _, sc := range scn.During {
+		if sc.Ev.Kind == "g" {
+			bySlot = false
+		}
+	}
+	pos := map[int]int{}
+	var grp []string
+	first := map[int]int{} // batch -> position of its first command
+	size := map[int]int{}
+	for bi, b := range scn.Batches {
+		first[bi] = len(grp)
+		for _, cm := range b {
+			switch cm.Name {
+			case "select", "ping":
+				continue // no key: Put drops it / sends it to any node; it has no position in the stream of keyed commands
+			case "set", "append", "lpush", "sadd", "hset", "vfgk", "vffb":
+			case "mset", "smove":
+				if !bySlot {
+					return "", nil, "multi-key-under-ask"
+				}
+				for _, k := range cm.Keys {
+					if vfdoubles.ClusterSlot(scn.Keys[k]) != vfdoubles.ClusterSlot(scn.Keys[cm.Keys[0]]) {
+						return "", nil, "two-slot-command"
+					}
+				}
+			default:
+				return "", nil, "command-class"
+			}
+			if len(cm.Keys) < 1 || (!bySlot && len(cm.Keys) != 1) {
+				return "", nil, "command-class"
+			}
+			pos[cm.ID] = len(grp)
+			if bySlot {
+				grp = append(grp, fmt.Sprint(vfdoubles.ClusterSlot(scn.Keys[cm.Keys[0]])))
+			} else {
+				grp = append(grp, fmt.Sprint(cm.Keys[0]))
+			}
+		}
+		size[bi] = len(grp) - first[bi]
+	}
+	for _, n := range res.Notes {
+		if strings.HasPrefix(n, "put-rejected") || n == "unsent" || n == "quiesce-timeout" || n == "refresh-not-parked" || n == "repark-timeout" {
+			return "", nil, "note-" + strings.Split(n, ":")[0]
+		}
+	}
+	if len(res.Dropped) > 0 || len(grp) == 0 {
+		return "", nil, "dropped"
+	}
+	if _, split := vfcRouteSplit(scn, res); split {
+		return "", nil, "route-split"
+	}
+	if vfcErrorReply(res.Trace) {
+		return "", nil, "error-reply"
+	}
+	atoi := func(s string) int { n := 0; fmt.Sscan(s, &n); return n }
+	var evs, log []string
+	var segs []vfdoubles.ExecSeg
+	var puts [][2]int
+	answered, redirected, done := map[int]bool{}, map[int]bool{}, map[int]bool{}
+	var app []int
+	open, p0, q, ai, lastOK := false, 0, 0, 0, true
+	quiet := true // no node executed a command of a group while an earlier one it refused was still unexecuted
+	closeAtt := func() {
+		if !open {
+			return
+		}
+		kind := byte('c')
+		if lastOK {
+			kind = 'o'
+		}
+		segs = append(segs, vfdoubles.ExecSeg{Kind: kind, P: p0, Q: q, App: app})
+		open = false
+	}
+	for _, ev := range res.Trace {
+		p := strings.Split(ev, ":")
+		switch p[0] {
+		case "P":
+			puts = append(puts, [2]int{atoi(p[2]), atoi(p[4])})
+		case "D":
+			bi := atoi(p[1])
+			if open && lastOK {
+				return "", nil, "attempt-order"
+			}
+			if open && (ai == 0 || (res.Attempts[ai-1].Err != "moved" && res.Attempts[ai-1].Err != "ask")) {
+				// the harness retries every error, the blocking sender only redirects: after another error
+				// its run ends and the next one starts from the stored position - which is 0 here
+				if first[bi] != 0 {
+					return "", nil, "retry-after-other"
+				}
+				closeAtt()
+				evs, segs = append(evs, "R"), append(segs, vfdoubles.ExecSeg{Kind: 's'})
+			}
+			closeAtt()
+			if len(puts) != size[bi] {
+				return "", nil, "partial-put"
+			}
+			routes := make([]string, len(puts))
+			for j, pu := range puts {
+				if pos[pu[0]] != first[bi]+j {
+					return "", nil, "put-order"
+				}
+				routes[j] = fmt.Sprint(pu[1])
+			}
+			puts = nil
+			p0, q = first[bi], first[bi]+size[bi]
+			evs = append(evs, fmt.Sprintf("B:%d:%d:0:%s", first[bi], q, strings.Join(routes, ",")))
+			answered, redirected, done = map[int]bool{}, map[int]bool{}, map[int]bool{}
+			app, open, lastOK = nil, true, false
+		case "q":
+			if len(p) != 5 || !open {
+				return "", nil, "stray-answer"
+			}
+			i := pos[atoi(p[2])]
+			switch {
+			case !answered[i]:
+				answered[i] = true
+				switch p[4][0] {
+				case 'x':
+					for j := p0; j < i; j++ {
+						if grp[j] == grp[i] && redirected[j] && !done[j] {
+							quiet = false
+						}
+					}
+					evs, done[i] = append(evs, fmt.Sprintf("x:%d", i)), true
+					app, log = append(app, i), append(log, fmt.Sprint(i))
+				case 'm', 'a':
+					evs, redirected[i] = append(evs, fmt.Sprintf("r:%d", i)), true
+				}
+			case redirected[i] && !done[i]:
+				if p[4] == "x" {
+					evs, done[i] = append(evs, fmt.Sprintf("c:%d", i)), true
+					app, log = append(app, i), append(log, fmt.Sprint(i))
+				}
+			default:
+				return "", nil, "re-arrival"
+			}
+		case "E":
+			if ai >= len(res.Attempts) {
+				return "", nil, "attempt-count"
+			}
+			at := res.Attempts[ai]
+			ai++
+			if p[2] == "ok" {
+				evs, lastOK = append(evs, "A", "d"), true
+				closeAtt()
+			} else if at.Err == "moved" || at.Err == "ask" {
+				evs = append(evs, "F:rd")
+			} else {
+				evs = append(evs, "F:ot")
+			}
+		}
+	}
+	closeAtt()
+	evs = append(evs, "R")
+	segs = append(segs, vfdoubles.ExecSeg{Kind: 's'})
+	l := "."
+	if len(log) > 0 {
+		l = strings.Join(log, ",")
+	}
+	if !quiet && !scn.Adv {
+		return "", nil, "loud-generated-schedule" // the generator never lets a slot come back: counted, would be a generator bug
+	}
+	segLine, autoLine := vfdoubles.ExecExpect(grp, segs)
+	op := fmt.Sprintf("c19x %s 1 %d %s %s", tag, len(grp), strings.Join(grp, ","), strings.Join(evs, " "))
+	return op, []string{tag + " accept", fmt.Sprintf("%s quiet %v", tag, quiet), tag + " segs " + segLine,
+		tag + " " + autoLine, tag + " log " + l, tag + " stored 0"}, ""
 }
 
 // ---------------------------------------------------------------- lines
@@ -709,6 +973,9 @@ func vfcGen(r *vfutil.Rand, name string) *vfcScn {
 	realTxn := scn.Mode == "txn" || scn.Mode == "txnpipe"
 	senderTxn := scn.Mode == "stxn" || scn.Mode == "stxnpipe"
 	txn := realTxn || senderTxn
+	// half of the scenarios have single-key commands only: those runs are also replayed through the
+	// operational model (ClusterExec), whose groups are keys as soon as the schedule has an ASK phase
+	single := r.Bool()
 	names := []string{"set", "append", "lpush", "sadd", "hset"}
 	id := 1
 	nb := r.Range(2, 6)
@@ -742,9 +1009,9 @@ func vfcGen(r *vfutil.Rand, name string) *vfcScn {
 					batch = append(batch, vfcCmd{id, "vfgk", []int{vfutil.Pick(r, ks)}}) // keys only via COMMAND GETKEYS
 				case x < 20:
 					batch = append(batch, vfcCmd{id, "vffb", []int{vfutil.Pick(r, ks)}}) // GETKEYS empty: args[0] fallback
-				case x < 25 && len(ks) >= 2:
+				case x < 25 && len(ks) >= 2 && !single:
 					batch = append(batch, vfcCmd{id, "mset", []int{ks[0], ks[1]}}) // one slot
-				case x < 26 && nt >= 2 && r.Chance(1, 2):
+				case x < 26 && nt >= 2 && !single && r.Chance(1, 2):
 					o := tagKeys[(t+1)%nt]
 					batch = append(batch, vfcCmd{id, "mset", []int{ks[0], o[0]}}) // two slots: one node (server CROSSSLOT) or two (Put refuses)
 				default:
@@ -756,7 +1023,7 @@ func vfcGen(r *vfutil.Rand, name string) *vfcScn {
 					continue
 				}
 			}
-			if len(ks) >= 2 && r.Chance(1, 12) {
+			if len(ks) >= 2 && !single && r.Chance(1, 12) {
 				a := r.Intn(len(ks))
 				bb := (a + 1 + r.Intn(len(ks)-1)) % len(ks)
 				batch = append(batch, vfcCmd{id, "smove", []int{ks[a], ks[bb]}})
@@ -865,9 +1132,160 @@ func vfcGen(r *vfutil.Rand, name string) *vfcScn {
 	return scn
 }
 
+// ---------------------------------------------------------------- Dispatch failure (ClusterSender.put / dispatch)
+
+// vfcDispatchFault: the REAL batch2.Put / Dispatch with the node pipeline of one node batch closed
+// beforehand (what a closed client leaves behind) or a Put that the router refuses (MSET over two
+// nodes): which node batches were handed to their nodes although Dispatch returned an error? The
+// sender dispatches the queue AGAIN after a non-redirect error of Dispatch (sendFunc, pipelined
+// modes); in transactional mode that is only harmless because a failed Dispatch of a one-node batch
+// has submitted nothing. Tie: ClusterSender.puts / dispatch on the same puts; monitor: a
+// transactional batch (Put("multi") first) whose Dispatch failed reached no node.
+func vfcDispatchFault(s *vfutil.Session, tag string, r *vfutil.Rand) {
+	keyOn := func(node int, salt string) string {
+		for i := 0; i < 100000; i++ {
+			t := fmt.Sprintf("d%d%s", i, salt)
+			if vfdoubles.ClusterSlot("{"+t+"}")*3/16384 == node {
+				return "k{" + t + "}"
+			}
+		}
+		return ""
+	}
+	keys := []string{keyOn(0, tag), keyOn(1, tag), keyOn(2, tag)}
+	d, err := vfdoubles.NewCluster(3, keys)
+	if err != nil {
+		s.Op("c19d "+tag+" 0 . -", tag+" harness-error")
+		return
+	}
+	defer d.Close()
+	d.SetBaseLayout(3)
+	c, err := NewCluster(&Options{StartNodes: d.Addrs(), ConnTimeout: 2 * time.Second, ReadTimeout: 30 * time.Second,
+		WriteTimeout: 30 * time.Second, KeepAlive: 8, AliveTime: time.Minute})
+	if err != nil {
+		s.Op("c19d "+tag+" 0 . -", tag+" harness-error")
+		return
+	}
+	defer c.Close()
+	txn := r.Bool()
+	b := c.NewBatcher(true).(*batch2)
+	if txn {
+		b.Put("multi")
+	}
+	var puts []string
+	idsOn := map[int][]int{} // node -> ids routed there
+	n := r.Range(1, 5)
+	home := r.Intn(3)
+	for id := 1; id <= n; id++ {
+		nd := home
+		if r.Chance(1, 3) {
+			nd = r.Intn(3)
+		}
+		if r.Chance(1, 8) {
+			// a command the router refuses: MSET over two nodes
+			b.Put("mset", keys[nd], fmt.Sprintf("#%d", id), keys[(nd+1)%3], fmt.Sprintf("#%d", id))
+			puts = append(puts, "r")
+			continue
+		}
+		before := b.Len()
+		b.Put("set", keys[nd], fmt.Sprintf("#%d", id))
+		puts = append(puts, fmt.Sprint(nd))
+		if b.Len() > before {
+			idsOn[nd] = append(idsOn[nd], id)
+		}
+	}
+	if txn {
+		b.Put("exec")
+	}
+	closed := -1
+	if len(b.batches) > 0 && r.Chance(2, 3) {
+		closed = r.Intn(len(b.batches))
+		c.pipeline.getNodePipeline(b.batches[closed].node).Close()
+	}
+	derr := b.Dispatch()
+	// Submit on a closed node pipeline fails - or, when the queue has room, may still queue the request
+	// (one select over both; such a request is never written): where Dispatch really stopped is read
+	// off the batcher, the model gets that index
+	failAt := "-"
+	refused := false
+	for _, p := range puts {
+		if p == "r" {
+			refused = true
+		}
+	}
+	if txn && len(b.batches) == 1 {
+		for _, p := range puts {
+			if p != "r" && p != fmt.Sprint(d.NodeOfAddr(b.batches[0].node.address)) {
+				refused = true // a second node in a transactional batch: refused with CROSSSLOT
+			}
+		}
+	}
+	if derr != nil && !refused {
+		for i := range b.batches {
+			if b.batches[i].request == nil || b.batches[i].err != nil { // Dispatch sets request before Submit, err when Submit failed
+				failAt = fmt.Sprint(i)
+				break
+			}
+		}
+	}
+	var submitted []string
+	reached := false
+	for i := range b.batches {
+		nd := d.NodeOfAddr(b.batches[i].node.address)
+		if b.batches[i].request != nil && b.batches[i].err == nil {
+			submitted = append(submitted, fmt.Sprint(nd))
+			if i != closed {
+				// handed to a live node pipeline: it WILL be written
+				if !d.WaitSeen(idsOn[nd], 3*time.Second) {
+					s.Count("dispatch_fault_submitted_not_arrived")
+				}
+			}
+		}
+	}
+	time.Sleep(5 * time.Millisecond)
+	arr := d.Arrivals()
+	for nd, ids := range idsOn {
+		for _, id := range ids {
+			if arr[id] > 0 {
+				reached = true
+				_ = nd
+			}
+		}
+	}
+	if closed >= 0 && derr == nil {
+		s.Count("dispatch_fault_closed_pipeline_accepted") // the request sits in a dead queue
+	}
+	sub := "."
+	if len(submitted) > 0 {
+		sub = strings.Join(submitted, ",")
+	}
+	res := "ok"
+	if derr != nil {
+		res = "err"
+	}
+	tx := "0"
+	if txn {
+		tx = "1"
+	}
+	s.Op(fmt.Sprintf("c19d %s %s %s %s", tag, tx, strings.Join(puts, ","), failAt), fmt.Sprintf("%s submitted %s %s", tag, sub, res))
+	s.Count("dispatch_fault_" + res)
+	if txn {
+		s.Count("dispatch_fault_txn")
+	}
+	if derr != nil && len(submitted) > 0 {
+		s.Count("dispatch_fault_partial")
+	}
+	if txn && derr != nil && reached {
+		s.Violate("txn-dispatch-failed-but-submitted", fmt.Sprintf("transactional batch: Dispatch returned an error (%v) but commands of it reached node(s) %s; the sender dispatches the queue again after such an error", derr, sub),
+			map[string]interface{}{"puts": strings.Join(puts, ","), "failAt": failAt, "txn": txn})
+	}
+}
+
 // ---------------------------------------------------------------- test
 
-func vfcOne(s *vfutil.Session, idx int, scn *vfcScn) {
+var vfcRetryRe = regexp.MustCompile(`F:rd( [xr]:\d+)* B:`)
+
+func vfcOne(s *vfutil.Session, idx int, scn *vfcScn) (nops int) {
+	nops = 1
 	tag := fmt.Sprintf("#%d", idx)
 	res, err := vfcRun(scn)
 	if err != nil {
@@ -878,6 +1296,30 @@ func vfcOne(s *vfutil.Session, idx int, scn *vfcScn) {
 	op, lines := vfcLines(tag, scn, res)
 	s.Op(op, lines...)
 	s.Count("mode_" + scn.Mode)
+	if xop, xlines, why := vfcExecOp(fmt.Sprintf("#%d", idx+1), scn, res); xop != "" {
+		s.Op(xop, xlines...)
+		s.Count("exec_model_traces")
+		// which branches of the operational model the run went through
+		for _, w := range [][2]string{{" r:", "refused"}, {" c:", "followed"}, {" F:rd", "fail_redirect"}, {" F:ot", "fail_other"}, {" R B:", "restart_resend"}} {
+			if strings.Contains(xop, w[0]) {
+				s.Count("exec_model_" + w[1])
+			}
+		}
+		for _, l := range xlines {
+			if strings.HasSuffix(l, " quiet false") {
+				s.Count("exec_model_quiet_false")
+			}
+			if strings.Contains(l, "prefix=false") {
+				s.Count("exec_model_prefix_false")
+			}
+		}
+		if vfcRetryRe.MatchString(xop) {
+			s.Count("exec_model_retry")
+		}
+		nops = 2
+	} else {
+		s.Count("exec_model_skipped_" + why)
+	}
 	for _, n := range res.Notes {
 		f := strings.Split(n, ":")
 		if f[0] == "put-rejected" && len(f) == 4 {
@@ -928,7 +1370,7 @@ func vfcOne(s *vfutil.Session, idx int, scn *vfcScn) {
 		// adversarial (ping-pong) schedules are outside the theorem's hypothesis:
 		// recorded, not judged
 		s.Add("adversarial_anomalies", len(viols))
-		return
+		return nops
 	}
 	seen := map[string]bool{}
 	for _, v := range viols {
@@ -944,6 +1386,7 @@ func vfcOne(s *vfutil.Session, idx int, scn *vfcScn) {
 		rp["cause"] = v.cause // derived from the trace by the monitor ("" = mechanism not established)
 		s.Violate(v.what, v.detail, rp)
 	}
+	return nops
 }
 
 func TestVerifC19(t *testing.T) {
@@ -979,16 +1422,19 @@ func TestVerifC19(t *testing.T) {
 		if err := json.Unmarshal([]byte(l), &scn); err != nil {
 			t.Fatalf("bad corpus line: %v", err)
 		}
-		vfcOne(s, idx, &scn)
+		idx += vfcOne(s, idx, &scn)
 		s.Count("src_corpus")
+	}
+	rd := vfutil.NewRand(vfutil.Seed() + 77)
+	for i := 0; i < vfutil.Scale(40, 400); i++ {
+		vfcDispatchFault(s, fmt.Sprintf("#%d", idx), rd.Fork())
 		idx++
 	}
 	r := vfutil.NewRand(vfutil.Seed())
 	n := vfutil.Scale(600, 12000)
 	for i := 0; i < n; i++ {
 		scn := vfcGen(r.Fork(), fmt.Sprintf("g%d", i))
-		vfcOne(s, idx, scn)
+		idx += vfcOne(s, idx, scn)
 		s.Count("src_gen")
-		idx++
 	}
 }
